@@ -286,7 +286,8 @@ class ZoneIntervals(Sub):
             return {"zone": z, "u": u, "form": draw(st.sampled_from(["start/duration", "duration/end"])),
                     "dur": {"y": draw(st.sampled_from([0, 0, 0, 1])), "mo": draw(st.sampled_from([0, 0, 0, 1, 6])), "d": draw(st.sampled_from([0, 0, 1, 2, 7])),
                             "h": draw(st.sampled_from([0, 1, 12, 23, 24, 25, 36, 47, 48, 72]) | st.integers(0, 100)), "mi": draw(st.sampled_from([0, 0, 30, 1440, 1500]) | st.integers(0, 200)),
-                            "s": draw(st.sampled_from([0, 0, 86400, 90000]) | st.integers(0, 5000)), "frac": draw(st.sampled_from(["", "", "5", "123456"]))}}
+                            "s": draw(st.sampled_from([0, 0, 86400, 90000]) | st.integers(0, 5000)), "frac": draw(st.sampled_from(["", "", "5", "123456"]))},
+                    "weeks": draw(st.sampled_from([None, None, None, None, "1", "0.5", "0,5", "1.5", "0.1", "2.43", "0.142857", "3"]))}
         return gen()
 
     def check(self, case, ctx):
@@ -306,6 +307,14 @@ class ZoneIntervals(Sub):
         frac_us = int(c["frac"].ljust(6, "0")) if c["frac"] else 0
         secs = (c["h"] * 60 + c["mi"]) * 60 + c["s"]
         days = c["d"]
+        if case.get("weeks"):
+            # PnW: a fraction of a week is whole days plus a rest of less than a day
+            c = dict(c, y=0, mo=0)
+            ds = "P" + case["weeks"] + "W"
+            exact = Fraction(case["weeks"].replace(",", ".")) * 7 * 86400 * US
+            total = round(exact)
+            days, rest = divmod(total, 86400 * US)
+            secs, frac_us = divmod(rest, US)
         sign = 1 if form == "start/duration" else -1
         if c["y"] or c["mo"] or days:
             # add()/subtract() with a calendar unit moves the wall clock by every unit and resolves the result on the post-transition side
